@@ -41,6 +41,9 @@ def rid(r):
         return r.choice([17.5, -0.5, 3000000000, 1e300])
     if k == 9:
         return None          # sentinel: no id member
+    if k == 10 and r.random() < 0.5:
+        # long ids that agree in their first 70 characters
+        return "L" * 70 + r.choice(["a", "b", "c"]) * r.randrange(1, 4)
     if k == 10:
         return r.choice([True, [1], obj(a=1)])   # unsupported id types (JSON null is not distinguishable from "absent" here)
     return r.randrange(1, 5)
@@ -119,6 +122,9 @@ class Gen:
                 {"name": "bob", "password": "bobsecret", "auth": obj(fetchGroups=gs(), setGroups=gs(), callGroups=gs()), "readonly": True, "admin": False},
                 {"name": "root", "password": "toor!", "auth": obj(fetchGroups=list(GROUPS), setGroups=list(GROUPS), callGroups=list(GROUPS)), "readonly": False, "admin": True},
                 {"name": "noauth", "password": "x", "auth": None, "readonly": False, "admin": False},
+                # records whose auth object lacks some of the three members
+                {"name": "fetchonly", "password": "fetch-pw", "auth": obj(fetchGroups=list(GROUPS)), "readonly": False, "admin": False},
+                {"name": "setter", "password": "setter-pw", "auth": obj(setGroups=gs(), callGroups=gs()), "readonly": False, "admin": False},
             ]
 
     def connect(self):
